@@ -14,13 +14,13 @@ INFO = {
                    'split re-joins to s; public path = rbql_csv.CSVRecordIterator(PieceIn([s]),...).get_record()/get_warnings().',
     'bounds': 'line length per shard (quick: 0..5, thorough: 0..7 with length 7 split by first-character class); delimiters , ; TAB | SPACE; '
               'policies quoted, quoted_rfc, simple, whitespace, monocolumn; preserve flag both ways',
-    'outside': 'lines longer than the bound; multi-character delimiters under the quoted policies (recorded under C10, known finding F5); JS twin (see C18)',
+    'outside': 'lines longer than the bound; multi-character delimiters other than "::"; JS twin (see C18)',
     'assumptions': ['CrossHair 0.0.110 models of str/re/list are faithful to CPython 3.12 (counterexamples are replayed on the real interpreter)',
                     'reference dialect scanner vf/refmodel/csvref.py validated on the repository\'s own test_split vectors at every run'],
     'trusted': ['crosshair-tool 0.0.110', 'z3 4.x (z3-solver wheel)', 'CPython 3.12.1 re module'],
 }
 
-DLM_NAMES = {',': 'comma', ';': 'semi', '\t': 'tab', '|': 'pipe', ' ': 'space'}
+DLM_NAMES = {'::': 'dcolon', ',': 'comma', ';': 'semi', '\t': 'tab', '|': 'pipe', ' ': 'space'}
 
 
 def selfcheck():
@@ -129,6 +129,9 @@ def obligations(tier, seed):
         for d in (',', ' '):
             obs.append(_split_obl(d, 5, False, timeout=120))
             obs.append(_split_obl(d, 5, True, timeout=120))
+        for L in (0, 1, 2, 3, 4):
+            obs.append(_split_obl('::', L, False, timeout=90))     # multi-character delimiter (fixed defect, see known_findings.json)
+            obs.append(_split_obl('::', L, True, timeout=90))
         for L in (0, 2, 4):
             obs.append(_smart_obl(',', 'simple', L, False))
             obs.append(_smart_obl(' ', 'whitespace', L, False))
@@ -146,6 +149,9 @@ def obligations(tier, seed):
                 t = 120 if L <= 4 else (300 if L == 5 else 900)
                 obs.append(_split_obl(d, L, False, timeout=t))
                 obs.append(_split_obl(d, L, True, timeout=t))
+        for L in range(0, 7):
+            obs.append(_split_obl('::', L, False, timeout=900))
+            obs.append(_split_obl('::', L, True, timeout=900))
         for d in (',', ' '):
             for first in ('q', 'd', 's', 'o'):
                 if d == ' ' and first == 's':
